@@ -1,5 +1,8 @@
 """Shared pieces of the protocol checks."""
+import os
 import random
+import select
+import time
 
 import gen
 import proto
@@ -176,6 +179,93 @@ def reload_scripts(rng, n):
         ev += [{"t": "stats"}]
         out.append((cfg, ev))
     return out
+
+
+def burst_worker(a):
+    """A burst: many clients whose short lines arrive in ONE write (several hundred lines per read), then silence.  Judged when the
+    daemon sleeps with its input drained - a state read from /proc and the pipe, not a deadline: every client that has been given
+    all it needs has its verdict by then, exactly one, and nobody else has one.  No hook is used."""
+    import re
+    import daemon
+    import vcommon
+    b, seed, n = a["build"], a["seed"], a["n"]
+    rng = random.Random(seed)
+    use_class = rng.random() < 0.4
+    cfg = proto.Config([("drone.svc", "dronecheck")] if a.get("service") else [], timeout=rng.choice([None, 3600]),
+                       rules=[{"name": "r1", "address": "10.0.1.0/24", "class": "one"}, {"name": "r2", "class": "rest"}] if use_class else [], use_class=use_class)
+    ids = [k + 1 for k in range(n)] if rng.random() < 0.5 else rng.sample(range(1, 100000), n)
+    lines = ["%d C 10.0.%d.%d 1 10.0.0.1 1" % (cid, (k >> 8) & 255, k & 255) for k, cid in enumerate(ids)]
+    complete = set()
+    gone = set()
+    steps_ = rng.choice([["d", "u a", "n b", "U a b c :d"], ["N h.example", "u a", "n b", "U a b c :d"], ["n b", "U a b c :d", "H"], ["d", "H"], ["H"]])
+    rng.shuffle(steps_)
+    for cmd in steps_:
+        for cid in ids:
+            lines.append("%d %s" % (cid, cmd))
+    complete = set(ids)      # every one of these step lists gives a client all it needs (or hurries it)
+    if a.get("service"):
+        # the dronecheck service is asked about every complete client; it answers all of them in the same burst (serial = order of announcement)
+        for k, cid in enumerate(ids):
+            lines.append("-1 X drone.svc %x_%x :OK" % (cid, k + 1))
+    tail = rng.choice([None, "D", "T"])
+    if tail:
+        half = ids[::2]
+        for cid in half:
+            lines.append("%d %s" % (cid, tail))
+        gone = set(half)
+    data = ("\n".join(lines) + "\n").encode("latin-1")
+    res = {"viol": [], "stats": {"burst_runs": 1, "burst_lines": len(lines), "burst_verdicts_at_quiescence": 0}, "inconc": [], "hash": vcommon.h(["burst", seed, n]), "nontrivial": bool(complete)}
+    d = daemon.Daemon(b, cfg.text(b["moddir"]), leaks=True, hooks=False, watchdog=60.0)
+    try:
+        os.set_blocking(d.p.stdin.fileno(), False)
+        pos = 0
+        t_end = time.time() + 60
+        while pos < len(data) and time.time() < t_end:
+            r_, w_, _ = select.select([d.ofd], [d.p.stdin.fileno()], [], 1.0)
+            if r_:
+                c = os.read(d.ofd, 1 << 16)
+                if not c:
+                    break
+                d.buf += c
+            if w_:
+                try:
+                    pos += os.write(d.p.stdin.fileno(), data[pos:pos + 65536])
+                except BlockingIOError:
+                    pass
+        os.set_blocking(d.p.stdin.fileno(), True)
+        quiet = pos == len(data) and daemon.wait_quiescent(d, 40.0)
+        at_rest = d.buf.decode("latin-1").split("\n")
+        r = d.finish()
+    except (daemon.Died, daemon.Hang, OSError):
+        d.kill()
+        res["inconc"].append("daemon died / hung in a burst run")
+        return res
+    if not quiet:
+        res["inconc"].append("the daemon did not come to rest within the watchdog time in a burst run")
+        return res
+    if not r.clean():
+        res["inconc"].append("daemon unclean in a burst run (%s); see C08" % (r.describe(),))
+        return res
+    got = {}
+    for ln in at_rest:
+        m = re.match(r"^([DRk]) (-?\d+) ", ln)
+        if m:
+            got.setdefault(int(m.group(2)), []).append(m.group(1))
+    res["stats"]["burst_verdicts_at_quiescence"] = len(got)
+    missing = [c for c in ids if c in complete and c not in got]
+    # a client withdrawn at the end of the burst had been decided before (its lines came first)
+    extra = [c for c in got if c not in complete]
+    twice = [c for c, v in got.items() if len(v) > 1]
+    wit = {"seed": seed, "n": n, "service": bool(a.get("service")), "burst": True}
+    if missing:
+        res["viol"].append(("C03", "burst-stuck", "burst-stuck", "%d clients were announced and given everything they need in one burst of %d lines (%d bytes, one write); when the daemon had "
+                            "drained its input and gone to sleep, %d of them had no verdict (first: %s)\nfirst input lines: %s" % (
+                                n, len(lines), len(data), len(missing), missing[:5], lines[:3] + ["..."] + lines[n:n + 2]), wit))
+    if twice or extra:
+        res["viol"].append(("C01", "burst-verdicts", "burst-verdicts", "after a burst of %d lines: clients with two verdicts %s, verdicts for clients that were not complete %s" % (
+            len(lines), twice[:5], extra[:5]), wit))
+    res["sample"] = {"burst_input_head": lines[:4], "lines": len(lines), "verdicts_when_the_daemon_came_to_rest": len(got)}
+    return res
 
 
 def reload_jobs(build, seed, props, n, tag="rls", per=10):
